@@ -565,28 +565,86 @@ def mutate(s, rng):
     return s
 
 
+def marker_string(rng):
+    """a version text with a pre-release marker in one of the places where it is NOT a legal suffix, or just is:
+    marker without a number (every marker), marker + number, marker in a non-last component, upper-case
+    marker, marker as a whole component, two markers, number before the marker missing"""
+    t = comp_tuple(rng)
+    comps = [str(v) if rng.random() < 0.8 else decorate_component(v, rng) for v in t]
+    m = rng.choice(MARKERS)
+    num = str(rng.randrange(0, 100))
+    i = rng.randrange(len(comps))
+    how = rng.choice(['bare-last', 'bare-last', 'bare-last', 'numbered-last', 'bare-inner', 'numbered-inner',
+                      'upper-bare', 'upper-numbered', 'only-marker-last', 'only-marker-numbered', 'only-marker-inner',
+                      'double', 'marker-dot-number', 'bare-then-ws', 'prefix-marker', 'truncated', 'whole'])
+    if how == 'bare-last':
+        comps[-1] += m
+    elif how == 'numbered-last':
+        comps[-1] += m + num
+    elif how == 'bare-inner':
+        comps[i] += m
+    elif how == 'numbered-inner':
+        comps[i] += m + num
+    elif how == 'upper-bare':
+        comps[-1] += rng.choice([m.upper(), m.capitalize()])
+    elif how == 'upper-numbered':
+        comps[-1] += rng.choice([m.upper(), m.capitalize()]) + num
+    elif how == 'only-marker-last':
+        comps.append(m)
+    elif how == 'only-marker-numbered':
+        comps.append(m + num)
+    elif how == 'only-marker-inner':
+        comps.insert(i, m + (num if rng.random() < 0.5 else ''))
+    elif how == 'double':
+        comps[-1] += m + (num if rng.random() < 0.5 else '') + rng.choice(MARKERS) + (num if rng.random() < 0.5 else '')
+    elif how == 'marker-dot-number':
+        comps[-1] += m
+        comps.append(num)
+    elif how == 'bare-then-ws':
+        comps[-1] += m + rng.choice(['\n', ' ', '\t', '\r\n'])
+    elif how == 'prefix-marker':
+        comps[-1] = m + comps[-1]
+    elif how == 'truncated':
+        comps[-1] += m[:-1] + (num if rng.random() < 0.5 else '') if len(m) > 1 else m + '_' + num
+    else:
+        return m + (num if rng.random() < 0.5 else ''), 'marker/whole'
+    return '.'.join(comps), 'marker/' + how
+
+
+def conversion_string(rng):
+    """one (string, tag) of the conversion stream"""
+    t = comp_tuple(rng)
+    x = rng.random()
+    if x < 0.22:
+        return '.'.join(map(str, t)), 'canonical'
+    if x < 0.44:
+        return '.'.join(decorate_component(v, rng) for v in t), 'decorated'
+    if x < 0.62:
+        s = '.'.join(map(str, t)) if rng.random() < 0.6 else '.'.join(decorate_component(v, rng) for v in t)
+        s += suffix(rng)
+        if rng.random() < 0.25:
+            s += rng.choice(['\n', '\n', '\n\n', '\r\n', ' '])
+        return s, 'suffix'
+    if x < 0.8:
+        return marker_string(rng)
+    s = '.'.join(map(str, t))
+    if rng.random() < 0.4:
+        s += suffix(rng)
+    return mutate(s, rng), 'mutated'
+
+
 def gen_conversion_strings(ctx):
     """yield (string, tag)"""
     rng = ctx.rng
     n = 2500 if ctx.quick else 40000
     for _ in range(n):
-        t = comp_tuple(rng)
-        x = rng.random()
-        if x < 0.25:
-            yield '.'.join(map(str, t)), 'canonical'
-        elif x < 0.5:
-            yield '.'.join(decorate_component(v, rng) for v in t), 'decorated'
-        elif x < 0.7:
-            s = '.'.join(map(str, t)) if rng.random() < 0.6 else '.'.join(decorate_component(v, rng) for v in t)
-            s += suffix(rng)
-            if rng.random() < 0.25:
-                s += rng.choice(['\n', '\n', '\n\n', '\r\n', ' '])
-            yield s, 'suffix'
-        else:
-            s = '.'.join(map(str, t))
-            if rng.random() < 0.4:
-                s += suffix(rng)
-            yield mutate(s, rng), 'mutated'
+        yield conversion_string(rng)
+    for m in MARKERS:           # every marker, written out
+        for base in ('1', '1.3', '10.0.3', '2.0'):
+            for tail in (m, m + '0', m + '1', m.upper(), m.upper() + '1', '.' + m, '.' + m + '1', m + '.1', m + m, m + '1' + m):
+                yield base + tail, 'marker/fixed'
+        yield m, 'marker/fixed'
+        yield m + '1', 'marker/fixed'
     fixed = ['', '.', '..', '1.', '.1', ' ', '\n', '1\n', '1.2\n', '1.2rc1\n', '1.2rc1\n\n', '1.2rc1\r\n', 'rc1', '1rc', '1.rc1',
              '1.2rc1rc2', '1a2b3', '1.2alpha', '1.2alph1', '1.2beta1', '1.2bet1', '1.2c1', '1.2r1', '1.2a_1', '1.2_a1',
              '1.2a1_', '1.2a+1', '1.2 a1', '1.2a 1', '1.2a1 ', '-1', '--1', '+-1', '1.-0', '0', '00', '0.0', '1_0', '1__0',
@@ -970,10 +1028,53 @@ def vmajor(struct, text):
     return struct['release'][0] if struct is not None else pv().Version(text).release[0]
 
 
+_SUFFIXED = re.compile(r'(.*\d)(?:a|alpha|b|beta|rc)\d+', re.S)
+_SUFFIXED_THEN_SPACE = re.compile(r'(.*\d)(?:a|alpha|b|beta|rc)\d+\s+', re.S)
+
+
+def spec_verdict(s):
+    """What the property says about converting the text `s`, written from its wording (not from the code):
+    the text is split at the dots; a component is numeric when int() accepts it; the LAST component may in
+    addition be <numeric text ending in a digit><a|alpha|b|beta|rc><one or more digits>, in which case marker and
+    number are ignored; anything else has a non-numeric component and must raise ValueError.
+    Returns ('raise',), ('tuple', [ints]) or None where the wording is silent (whitespace after a suffix)."""
+    parts = s.split('.')
+    last = parts[-1]
+    mm = _SUFFIXED.fullmatch(last)
+    if mm:
+        parts = parts[:-1] + [mm.group(1)]
+    elif _SUFFIXED_THEN_SPACE.fullmatch(last):
+        return None
+    vals = [_int_ok(p) for p in parts]
+    if any(v is None for v in vals):
+        return ('raise',)
+    return ('tuple', vals)
+
+
 def oracle(case):
     """None, or a sentence saying how the property fails on the implementation for this case"""
     m = vu()
     k = case['prop']
+    if k == 'spec':
+        s = case['s']
+        verdict = spec_verdict(s)
+        if verdict is None:
+            return None
+        if verdict[0] == 'raise':
+            for f in (m.convert_version_to_tuple, m.convert_version_to_int):
+                why = _raises_valueerror(f, s)
+                if why:
+                    return '%s(%r) %s: a component is neither numeric nor a number followed by ' \
+                           'a|alpha|b|beta|rc and digits' % (f.__name__, s, why[:120])
+            return None
+        want = tuple(verdict[1])
+        got = _try(m.convert_version_to_tuple, s)
+        if got != want:
+            return 'convert_version_to_tuple(%r) = %s, the components are %s' % (s, repr(got)[:80], repr(want)[:80])
+        gi, wi = _try(m.convert_version_to_int, s), _try(m.convert_version_to_int, want)
+        if type(gi) is not int or gi != wi:
+            return 'convert_version_to_int(%r) = %s but of its component tuple %s' % (s, repr(gi)[:60], repr(wi)[:60])
+        return None
     if k == 'roundtrip':
         t = case['t']
         s = '.'.join(map(str, t))
@@ -1070,9 +1171,11 @@ def in_domain(t):
 
 def gen_search_case(rng):
     x = rng.random()
-    if x < 0.2:
+    if x < 0.12:
         return {'prop': 'roundtrip', 't': comp_tuple(rng, in_domain=True)}
-    if x < 0.45:
+    if x < 0.3:
+        return {'prop': 'spec', 's': conversion_string(rng)[0]}
+    if x < 0.48:
         a = comp_tuple(rng, in_domain=True)
         if rng.random() < 0.3:
             a[0] = rng.choice(POOL)
@@ -1083,7 +1186,7 @@ def gen_search_case(rng):
         if rng.random() < 0.15:
             b = [rng.choice(POOL) for _ in a]
         return {'prop': 'order', 'a': a, 'b': b}
-    if x < 0.55:
+    if x < 0.57:
         t = comp_tuple(rng, in_domain=rng.random() < 0.7)
         d = str(rng.randrange(0, 1000))
         return {'prop': 'suffix', 's': '.'.join(map(str, t)), 'marker': rng.choice(MARKERS),
@@ -1110,6 +1213,7 @@ def seeds_to_cases(seeds):
             out.append(s)
         elif fn in ('tuple', 'int_s'):
             txt = s['s']
+            out.append({'prop': 'spec', 's': txt})
             mm = re.fullmatch(r'([0-9]+(?:\.[0-9]+)*)((a|alpha|b|beta|rc)([0-9]+)(\n?))?', txt)
             if mm:
                 t = [int(x) for x in mm.group(1).split('.')]
@@ -1193,6 +1297,9 @@ def shrink(case):
             else:
                 i += 1
         return {'prop': k, 'a': a, 'b': b}
+    if k == 'spec':
+        chars = common.shrink_list(list(case['s']), lambda sub: fails({'prop': k, 's': ''.join(sub)}))
+        return {'prop': k, 's': ''.join(chars)}
     if k in ('compat', 'pred'):
         for c in fixed_cases():
             if c['prop'] == k and bool(c.get('malformed')) == bool(case.get('malformed')) and fails(c):
@@ -1218,14 +1325,27 @@ def search(ctx, seeds, full=False):
     for t in ([999], [1, 0], [999, 999, 999, 999, 999], [1, 0, 0, 0, 0], [100, 10, 1], [1, 999, 0, 999]):
         todo.append({'prop': 'roundtrip', 't': t})
     todo += fixed_cases()
+    for mk in MARKERS:
+        for base in ('1', '1.3', '10.0.3'):
+            for tail in (mk, mk + '1', mk.upper() + '1', '.' + mk, mk + '.1'):
+                todo.append({'prop': 'spec', 's': base + tail})
     todo += [gen_search_case(rng) for _ in range(n)]
+    n_seed_cases = len(seeds_to_cases(seeds[:300]))
     for case in todo:
         ctx.evaluations += 1
         ctx.count('search/' + case['prop'])
         try:
             why = oracle(case)
-        except Exception as e:      # the oracle itself tripped over a case (harness side): not an outcome
+        except Exception as e:      # the oracle itself tripped over a case (harness side): not an outcome,
+            # but it must stay visible - in the histogram, and the case itself in the notes
+            idx = ctx.hist.get('search/oracle-error', 0)
+            ctx.count('search/oracle-error')
             ctx.count('search/oracle-error/' + type(e).__name__)
+            if idx < 5:
+                shown = {k: v for k, v in case.items() if not k.endswith('struct') and k != 'comps'}
+                ctx.notes.append('search: the oracle could not evaluate %s case %r (%s: %s) - harness error, the case '
+                                 'was NOT judged' % ('a SEED' if todo.index(case) < n_seed_cases else 'a generated',
+                                                     shown, type(e).__name__, str(e)[:120]))
             continue
         if why:
             kind = case['prop'] + ('/malformed' if case.get('malformed') else '')
@@ -1273,7 +1393,7 @@ def seeds_to_model_cases(case):
     if k == 'suffix':
         s = case['s'] + case['marker'] + case['digits'] + ('\n' if case.get('newline') else '')
         return [{'fn': 'tuple', 's': case['s']}, {'fn': 'tuple', 's': s}]
-    if k == 'nonnumeric':
+    if k in ('nonnumeric', 'spec'):
         return [{'fn': 'tuple', 's': case['s']}, {'fn': 'int_s', 's': case['s']}]
     return [dict(case, fn=k)]
 
